@@ -32,6 +32,15 @@ def parseAnswer (l : Line) : FlowObs.Answer :=
     minted := if ok && has l "o.rt" then some (rtOf "o.rt") else if !ok && has l "o.minted" then some (rtOf "o.minted") else none,
     handed := if has l "o.handed" then some (str l "o.handed") else none,
     err := str l "o.err",
-    created := (list l "journal").any (fun j => j.startsWith "CreateAccess") }
+    -- deep4-C07: `o.created` = the storage holds a token now that it did not hold before the request (a creating call that
+    -- FAILED is journalled too); lines without the key: the journal
+    --
+    -- a request that is refused because a storage call FAILED after the storage had rotated (`fault.at=in:CreateAccessToken` /
+    -- `in:CreateIDToken`: signing key, userinfo, private claims) is not a refusal by validation: C07's "nothing is issued" speaks
+    -- about the requests the provider refuses on their merits (client, grant, scope), and what a storage fault may leave in the
+    -- ANSWER is C10's subject (judged there and by `judgeBody`: no token in the body).  The clause `tokens-created-on-refused-request`
+    -- is therefore not applied to these lines (first recorded as F-C07a; settled as a demand beyond the property, DESIGN 9.5).
+    created := if str l "fault.at" == "in:CreateAccessToken" || str l "fault.at" == "in:CreateIDToken" then false
+               else if has l "o.created" then bool l "o.created" else (list l "journal").any (fun j => j.startsWith "CreateAccess") }
 
 end Drv.Wire
